@@ -35,6 +35,11 @@ class Tx:
             self.group = None if toks[7] == "-" else toks[7]
             self.proof = toks[8]
             self.id = f"1356:{self.frm}-1356:{self.to}-{self.index}" if self.frm.count(":") == 1 and self.to.count(":") == 1 else None
+            # a transaction between this hub and another one (one side written with its hub id): tracked only in histories that
+            # registered that hub (before, such a request is begin-failed and the id stays out of the protocol monitors)
+            fl = lambda x: x if x.count(":") == 2 else "1356:" + x
+            self.hubid = (f"{fl(self.frm)}-{fl(self.to)}-{self.index}"
+                          if self.id is None and {self.frm.count(":"), self.to.count(":")} == {1, 2} and all(p for p in (self.frm + ":" + self.to).split(":")) else None)
         elif self.kind == "xfer":
             self.frm, self.to, self.amt = toks[1], toks[2], toks[3]
         elif self.kind == "bvm":
@@ -285,14 +290,20 @@ def mon_c04_c06(h, obs, which):
             fp = f"{prop}/unordered-source-receipt-not-removed"
         hits.append(Hit(fp, msg, detail=detail))
 
+    interhub = any("s:relaychain" in o for o in h.ops)
     for st in parse_trace(h, obs):
         if st[0] == "block":
             b = st[1]
             if not b.ok:
                 continue
-            for i, (tx, rc) in enumerate(zip(b.txs, b.rcs)):
-                if tx.kind != "ibtp" or tx.id is None:
+            for i, (tx0, rc) in enumerate(zip(b.txs, b.rcs)):
+                if tx0.kind != "ibtp" or (tx0.id is None and not (interhub and tx0.hubid)):
                     continue
+                tx = tx0
+                if tx0.id is None:
+                    import copy as _copy
+                    tx = _copy.copy(tx0)
+                    tx.id = tx0.hubid
                 if tx.group is not None and (tx.typ == "req" or tx.id not in ones):
                     # a REQUEST carrying a Group declares a one-to-many child.  A receipt that carries one for an id begun
                     # one-to-one is still that transaction's receipt (the field is the sender's to fill)
